@@ -118,10 +118,14 @@ impl LunarYear {
 
   pub fn get_months(&self) -> Vec<LunarMonth> {
     let mut l: Vec<LunarMonth> = Vec::new();
+    let n: usize = self.get_month_count();
     let mut m: LunarMonth = LunarMonth::from_ym(self.year, 1);
-    while m.get_year() == self.year {
+    for i in 0..n {
       l.push(m);
-      m = m.next(1);
+      // 最后一个月不再往后推，否则9999年会推到不支持的10000年
+      if i + 1 < n {
+        m = m.next(1);
+      }
     }
     l
   }
